@@ -1,16 +1,21 @@
 (** C17 — bit, varint and buffer primitives round-trip every value.
-    This file only restates theorems proved in Proofs/ and prints their assumptions. *)
-From Draco Require Import Base.Codec Model.Varint Proofs.Varint_proofs.
+    This file only restates theorems proved in Proofs/ and prints their assumptions.
+    Shape of every statement: [enc x = Some bs -> dec (bs ++ rest) = Some (x, rest)] — lossless,
+    self-delimiting, unaffected by what follows. *)
+From Draco Require Import Base.Codec Gen.Constants Model.Varint Model.BitBuffer Model.Ans Model.BitCoders
+  Model.AdaptiveProb
+  Proofs.Varint_proofs Proofs.BitBuffer_proofs Proofs.Ans_proofs Proofs.BitCoders_proofs
+  Proofs.DirectCoder_proofs Proofs.FoldedCoder_proofs Proofs.C17_final_proofs.
 Local Open Scope Z_scope.
 
-(** Unsigned varints of every width: lossless, self-delimiting, independent of trailing bytes. *)
+(** ** Variable-length integers, zig-zag, byte-aligned scalars *)
 Theorem C17_varint_unsigned_roundtrips : forall w, width_ok w ->
   roundtrips enc_varint_u (dec_varint_u w) (fun v => 0 <= v < 2 ^ w).
 Proof. exact varint_u_roundtrips. Qed.
 Print Assumptions C17_varint_unsigned_roundtrips.
 
 (** The encoder never fails on a value of the type and never needs more bytes than the
-    decoder's depth limit allows. *)
+    decoder's depth limit (regenerated from the source: Gen.Constants.varint_max_depth_of_sizeof). *)
 Theorem C17_varint_encoder_total : forall w v, width_ok w -> 0 <= v < 2 ^ w ->
   exists bs, enc_varint_u v = Some bs /\ (0 < length bs <= varint_max_depth w)%nat /\ wf_bytes bs.
 Proof. exact enc_varint_u_total. Qed.
@@ -31,6 +36,119 @@ Theorem C17_scalar_roundtrips : forall n,
 Proof. exact le_roundtrips. Qed.
 Print Assumptions C17_scalar_roundtrips.
 
-(** Non-vacuity: the premises are met by concrete values, and the functions compute. *)
+(** ** Bit sequences with and without stored size, interleaved with byte-mode data
+    (any list of items; every block may hold any number of 0..32-bit writes that fit the reservation). *)
+Theorem C17_bit_and_byte_items_roundtrip : forall ver, 514 <= ver -> forall its bs rest,
+  Forall item_ok its -> enc_items its = Some bs ->
+  dec_items ver (map shape_of its) (bs ++ rest) = Some (map expect_of its, rest).
+Proof. exact items_roundtrip. Qed.
+Print Assumptions C17_bit_and_byte_items_roundtrip.
+
+(** Reading past the written data yields zeros (and the model never indexes outside the buffer). *)
+Theorem C17_bits_past_end_are_zero : forall bs off n, wf_bytes bs -> 8 * Z.of_nat (length bs) <= off -> 0 <= n ->
+  (le_val bs / 2 ^ off) mod 2 ^ n = 0.
+Proof. exact get_bits_past_end. Qed.
+Print Assumptions C17_bits_past_end_are_zero.
+
+(** ** rABS core: the table-driven division is exact, and every (bit, probability) sequence round-trips *)
+Theorem C17_fastdiv_correct : forall y x, 1 <= y <= 255 -> 0 <= x < 2 ^ 31 -> fastdiv x y = x / y.
+Proof. exact fastdiv_correct. Qed.
+Print Assumptions C17_fastdiv_correct.
+
+Theorem C17_rabs_block_roundtrip : forall syms, probs_ok syms ->
+  exists blk, rabs_block syms = Some blk /\ Forall is_byte blk /\ (length blk <= length syms + 3)%nat /\
+    exists x0 stk0, ans_read_init (rev blk) = Some (x0, stk0) /\
+      exists x' s', rabs_decode (map snd syms) x0 stk0 = (map fst syms, x', s') /\ renorm x' s' = (ansL, []).
+Proof. exact rabs_block_roundtrip. Qed.
+Print Assumptions C17_rabs_block_roundtrip.
+
+(** ** RAnsBitEncoder/Decoder: any sequence of EncodeBit / EncodeLeastSignificantBits32(1..32 bits) *)
+Theorem C17_ransbit_roundtrip : forall ver ops bs rest,
+  514 <= ver -> ops_nonneg ops -> Z.of_nat (length (flatten ops)) + 3 < 2 ^ 32 ->
+  ransbit_encode (flatten ops) = Some bs ->
+  exists st, ransbit_start ver (bs ++ rest) = Some (st, rest) /\
+             fst (read_ops ransbit_next (map rop_of ops) st) = map value_of ops.
+Proof. exact ransbit_ops_roundtrip. Qed.
+Print Assumptions C17_ransbit_roundtrip.
+
+Theorem C17_ransbit_encoder_total : forall bits, Z.of_nat (length bits) + 3 < 2 ^ 32 ->
+  exists bs, ransbit_encode bits = Some bs.
+Proof. exact ransbit_encode_total. Qed.
+Print Assumptions C17_ransbit_encoder_total.
+
+(** ** AdaptiveRAnsBitEncoder/Decoder: for EVERY probability state machine whose clamp lands in 1..255
+    (the binary64 recurrence of the C++ is the instance AdaptiveProb.clamp_probability/update_probability,
+    tied by correspondence). *)
+Theorem C17_adaptive_roundtrip : forall (PS : Type) (p_clamp : PS -> Z) (p_upd : PS -> bool -> PS) p_init ops bs rest,
+  (forall p, 1 <= p_clamp p <= 255) ->
+  ops_nonneg ops -> Z.of_nat (length (flatten ops)) + 3 < 2 ^ 32 ->
+  adaptive_encode p_clamp p_upd p_init (flatten ops) = Some bs ->
+  exists st, adaptive_start p_init (bs ++ rest) = Some (st, rest) /\
+             fst (read_ops (adaptive_next p_clamp p_upd) (map rop_of ops) st) = map value_of ops.
+Proof. intros PS. exact (@adaptive_ops_roundtrip PS). Qed.
+Print Assumptions C17_adaptive_roundtrip.
+
+(** The adaptive encoder's scratch buffer (number of bits + 16 bytes) always suffices. *)
+Theorem C17_adaptive_buffer_suffices : forall (PS : Type) (p_clamp : PS -> Z) (p_upd : PS -> bool -> PS),
+  (forall p, 1 <= p_clamp p <= 255) -> forall p_init bits,
+  exists blk, rabs_block (adaptive_syms p_clamp p_upd p_init bits) = Some blk /\
+              (length blk <= length bits + 3)%nat.
+Proof. intros PS. exact (@adaptive_buffer_suffices PS). Qed.
+Print Assumptions C17_adaptive_buffer_suffices.
+
+(** ** DirectBitEncoder/Decoder *)
+Theorem C17_direct_roundtrip : forall ops bs rest,
+  ops_nonneg ops -> 4 * (Z.of_nat (length (flatten ops)) / 32 + 1) < 2 ^ 32 ->
+  direct_encode (flatten ops) = Some bs ->
+  exists st, direct_start (bs ++ rest) = Some (st, rest) /\
+             fst (read_ops direct_next (map rop_of ops) st) = map value_of ops.
+Proof. exact direct_ops_roundtrip. Qed.
+Print Assumptions C17_direct_roundtrip.
+
+Theorem C17_direct_lsb_is_n_bit_reads : forall n st, (n <= length (ds_bits st))%nat ->
+  direct_lsb n st = Some (val_msb (fst (read_n direct_next n st)), snd (read_n direct_next n st)).
+Proof. exact direct_lsb_spec. Qed.
+Print Assumptions C17_direct_lsb_is_n_bit_reads.
+
+(** ** FoldedBit32Encoder/Decoder over ANY inner coder satisfying the bit-coder law, and the RAnsBit instance *)
+Theorem C17_folded_roundtrip_generic : forall (St : Type)
+  (inner_enc : list bool -> option bytes) (inner_start : bytes -> option (St * bytes)) (inner_next : St -> bool * St),
+  (forall bits bs rest, inner_enc bits = Some bs ->
+     exists st, inner_start (bs ++ rest) = Some (st, rest) /\ fst (read_n inner_next (length bits) st) = bits) ->
+  forall ops bs rest, ops_ok ops -> folded_encode inner_enc ops = Some bs ->
+  exists sts sts', folded_start inner_start (bs ++ rest) = Some (sts, rest) /\
+    folded_read inner_next (map rop_of ops) sts = Some (map value_of ops, sts').
+Proof. intros St. exact (@folded_roundtrip St). Qed.
+Print Assumptions C17_folded_roundtrip_generic.
+
+Theorem C17_folded_ransbit_roundtrip : forall ver ops bs rest,
+  514 <= ver -> ops_ok ops -> Z.of_nat (length ops) + 3 < 2 ^ 32 ->
+  folded_encode ransbit_encode ops = Some bs ->
+  exists sts sts', folded_start (ransbit_start ver) (bs ++ rest) = Some (sts, rest) /\
+    folded_read ransbit_next (map rop_of ops) sts = Some (map value_of ops, sts').
+Proof. exact folded_ransbit_roundtrip. Qed.
+Print Assumptions C17_folded_ransbit_roundtrip.
+
+(** ** Non-vacuity: the premises are met by concrete values, and the functions compute. *)
 Example C17_example_varint : enc_varint_u 300 = Some [172; 2] /\ dec_varint_u 32 [172; 2; 9] = Some (300, [9]).
 Proof. vm_compute. split; reflexivity. Qed.
+Example C17_example_items :
+  let its := [IBytes [7; 8]; IBlock 20 true [(3, 5); (9, 300)]; IBytes [1]] in
+  Forall item_ok its /\
+  enc_items its = Some [7; 8; 2; 101; 9; 1] /\
+  dec_items 514 (map shape_of its) ([7; 8; 2; 101; 9; 1] ++ [99]) = Some (map expect_of its, [99]).
+Proof.
+  cbn zeta. split; [repeat constructor; cbn; lia|]. split; vm_compute; reflexivity.
+Qed.
+Example C17_example_ransbit :
+  let ops := [OBit true; OLsb 5 19; OBit false; OLsb 32 4294967295] in
+  ransbit_encode (flatten ops) = Some [20; 4; 96; 106; 74; 137] /\
+  match ransbit_start 514 ([20; 4; 96; 106; 74; 137] ++ [1; 2]) with
+  | Some (st, rest) => rest = [1; 2] /\ fst (read_ops ransbit_next (map rop_of ops) st) = [1; 19; 0; 4294967295]
+  | None => False
+  end.
+Proof. cbn zeta. split; [vm_compute; reflexivity|]. vm_compute. split; reflexivity. Qed.
+Example C17_example_adaptive_instance_in_range :
+  forallb (fun p => (1 <=? p) && (p <=? 255))
+    (map (fun st => clamp_probability st) [d_half; update_probability d_half true; update_probability d_half false]) = true.
+Proof. vm_compute. reflexivity. Qed.
